@@ -51,6 +51,8 @@ LEVEL = {
                  "raise-type table, yield-origin dataflow",
 }
 LEVEL["decided"] += " (R01.12) fourteen tools (takewhile, dropwhile, filterfalse, filter, pairwise, batched, accumulate, starmap, enumerate, map, compress, chain, cycle, iter with sentinel) and the two inner generators of zip as finite tables by abstract evaluation — the items yielded and the way the generator ends (C05/C06 also compare items taken and calls), 373 cells, compared with the stdlib tool executed on the same symbols; (R01.13) the library's scope managers around the sources never suppress an exception."
+LEVEL["decided"] += " (R01.14) tee: every history of next / close operations on 2-3 children over sources of up to 3 items gives each child the items of the source in order (object model with generator frames, compared with itertools.tee after every operation); (R01.15) merge as a table of 548 cells (1-3 sources, every sorted ranking with ties, key, reverse) against heapq.merge; (R01.16/R01.17) awaitify never wraps a plain library function, and no helper updates a user's value in place."
+LEVEL["technique"] += '; tee histories and the merge table by abstract evaluation over an object model with generator frames, compared with the executed stdlib'
 
 PASS_THROUGH = ["builtins.zip", "builtins._zip_inner", "builtins._zip_inner_strict", "builtins.filter",
                 "builtins.enumerate", "itertools.cycle", "itertools.batched", "itertools.chain._chain_iterator",
